@@ -3,11 +3,11 @@
    Proofs: Lib/Kernel.v, KernelSeg.v, KernelRing.v, KernelPoly.v, C07/GenTie.v, C07/FloatLink.v, C07/CCWProofs.v. *)
 From Coq Require Import ZArith List Bool Floats.SpecFloat.
 From GeosV.Lib Require Import KernelDefs Kernel KernelSeg KernelRing KernelPoly.
-From GeosV.C07 Require Import CCWDefs CCWProofs GenTie FloatLink.
+From GeosV.C07 Require Import CCWDefs CCWProofs GenTie FloatLink SurfTie.
 From GeosV.Lib Require GenPreludeZ GenPreludeF.
-From GeosV.C07 Require PreludeLI.
+From GeosV.C07 Require PreludeLI PreludeSurf.
 From GeosV.C07 Require RunDefs.    (* entry points of the extracted models: kept in the dependency cone so that they are rebuilt with the generated units *)
-From GeosV.Gen Require K_countSegment K_getLocation K_envPtZ K_envSegZ K_collinearZ K_intersectZ K_filterF K_orientationIndexF.
+From GeosV.Gen Require K_locatePointInSurface K_countSegment K_getLocation K_envPtZ K_envSegZ K_collinearZ K_intersectZ K_filterF K_orientationIndexF.
 Import ListNotations.
 Local Open Scope Z_scope.
 
@@ -162,6 +162,13 @@ Theorem C07_gen_computeIntersect : forall st p1 p2 q1 q2,
 Proof. exact LI_side.gen_intersect_eq. Qed.
 Print Assumptions C07_gen_computeIntersect.
 
+(* SimplePointInAreaLocator::locatePointInSurface as generated from the C++ (isEmpty / envelope short-cuts, shell, search loop over
+   the holes with its early returns) = shell-minus-holes location, for every polygon with closed rings, any number and order of holes *)
+Theorem C07_gen_locatePointInSurface : forall p shell holes, closed shell -> Forall closed holes ->
+  K_locatePointInSurface.g_locatePointInSurface p (PreludeSurf.GSurf shell holes) = loc_code (locate_polygon p shell holes).
+Proof. exact gen_locatePointInSurface_spec. Qed.
+Print Assumptions C07_gen_locatePointInSurface.
+
 (* ================================================================== non-vacuity: concrete instances *)
 Definition sq : list pt := [(0,0); (4,0); (4,4); (0,4); (0,0)].
 Example ex_closed : closed sq. Proof. reflexivity. Qed.
@@ -188,6 +195,13 @@ Proof. vm_compute. split; reflexivity. Qed.
 Example ex_hole : locate_polygon (2,2) [(0,0);(10,0);(10,10);(0,10);(0,0)] [[(1,1);(3,1);(3,3);(1,3);(1,1)]] = Exterior /\
                   locate_polygon (3,2) [(0,0);(10,0);(10,10);(0,10);(0,0)] [[(1,1);(3,1);(3,3);(1,3);(1,1)]] = Boundary /\
                   locate_segs (5,5) (polygon_segs [(0,0);(10,0);(10,10);(0,10);(0,0)] [[(1,1);(3,1);(3,3);(1,3);(1,1)]]) = Interior.
+Proof. vm_compute. repeat split. Qed.
+(* an L-shaped hole listed before a square hole in its notch: the point inside the later hole is EXTERIOR, through the generated code too *)
+Example ex_nested_holes :
+  let shell := [(0,0);(12,0);(12,12);(0,12);(0,0)] in
+  let hL := [(2,2);(10,2);(10,4);(4,4);(4,10);(2,10);(2,2)] in let hS := [(6,6);(8,6);(8,8);(6,8);(6,6)] in
+  locate_polygon (7,7) shell [hL; hS] = Exterior /\ locate_polygon (6,7) shell [hL; hS] = Boundary /\ locate_polygon (5,5) shell [hL; hS] = Interior /\
+  K_locatePointInSurface.g_locatePointInSurface (7,7) (PreludeSurf.GSurf shell [hL; hS]) = 2.
 Proof. vm_compute. repeat split. Qed.
 Example ex_ccw : is_ccw sq = true /\ ring_ccw sq = true /\ is_ccw (rev sq) = false /\ area2 sq = 32.
 Proof. vm_compute. repeat split. Qed.
